@@ -71,17 +71,25 @@ func HarnessC20TransformStatic() {
 	v := zzverif.Int64("a")
 	u := zzverif.Uint64("b")
 	zzverif.Assume(u <= 0xffff)
-	fail := zzverif.Choose("fail", 2) == 1
+	fail := zzverif.Choose("fail", 3) // 0 fine, 1 the inner source fails, 2 its value cannot be reverse-translated
 	inner := &c20inner{a: zzverif.Literal(v, zzverif.StyleDecimal), b: zzverif.LiteralU(u, zzverif.StyleDecimal)}
+	if fail == 2 {
+		inner.a = "not-a-number"
+	}
 	inner.asPtr = zzverif.Choose("ptr", 2) == 1
-	if fail {
+	if fail == 1 {
 		inner.valueErr = errInner
 	}
 	src := NewTransformingSource(inner, &transform.StringCastingMangler{})
 	def := c20cfg{A: 1, B: 2}
 	d, err := dials.Config(context.Background(), &def, src)
-	if fail {
+	if fail == 1 {
 		zzverif.Assert(err != nil && errors.Is(err, errInner), "C20 an inner source's error was swallowed or not wrapped by the transforming source")
+		return
+	}
+	if fail == 2 {
+		zzverif.Assert(err != nil, "C20 an initial value that cannot be reverse-translated did not make Config fail (the error was swallowed)")
+		zzverif.Reached("c20-static-untranslatable")
 		return
 	}
 	zzverif.Assert(err == nil, "C20 Config failed through a transforming source")
@@ -196,7 +204,10 @@ func HarnessC20Blank() {
 	var w *c20plainWatcher
 	var lastPlain *c20plain
 	for i := 0; i < 3; i++ {
-		switch zzverif.Choose("op"+string(rune('0'+i)), 5) {
+		switch zzverif.Choose("op"+string(rune('0'+i)), 6) {
+		case 5: // a nil source is refused, and the Blank stays usable
+			e := b.SetSource(ctx, nil)
+			zzverif.Assert(e != nil, "C20 SetSource accepted a nil source")
 		case 4: // hand in the most recently set plain source again after its content changed
 			if lastPlain == nil || owner == 2 {
 				continue
